@@ -48,6 +48,11 @@ LEVEL_NOTE = ("project_equations (revision, linearisation, singular_coords) is a
               "proved false otherwise (C20_peWorld_still / C20_peWorld_not_still); what remains is WorldHyp: on every configuration the loop "
               "can visit NoAlias, m0 != 0, covariance invertible and the algorithm's first- and second-stage unambiguity (not yet one "
               "input-side hypothesis; conclusions witnessed by kernel evaluation over Q only; the composed world is run by no driver). "
+              "Round 13: WorldHyp is needed only on the configurations REACHABLE by the removal loop - the sub-configurations of the given "
+              "network (same ids, statuses kept or unused; closed under project_equations, the huge-covariance pass and removeUnknown: "
+              "Lemmas/NetDecisionRestrict.lean decideA_congr, closed_subOf) - C20_adjusted_sound_of_project_equations_reachable / "
+              "_subconfigurations (Props/C20/ProjectEquationsReachable.lean); over R: NetHyp witnessed on 1 of the 8 sub-configurations of "
+              "Ex.netWobs (Props/C20/PeWitness.lean). "
               "The older theorems keep an abstract pe: "
               "the world hypotheses WF / RefusalFlags / RefusalFirst and the verdict theorem C20_adjusted_sound are THEOREMS for "
               "worlds built from the solver models gso, cholesky (Props/C20/World.lean), envelope and svd "
